@@ -686,6 +686,15 @@ pub fn process<I: BufRead, O: Write>(
                                 }
 
                                 // Process file
+                                if context.includes_stack.len() >= 64 {
+                                    // A file that includes itself, directly or not, never ends
+                                    return Err(Error::Syntax {
+                                        filename: filename.clone(),
+                                        included_in: included_in.clone(),
+                                        line,
+                                        msg: "#include nested too deeply".to_string(),
+                                    });
+                                }
                                 let f = File::open(path)?;
                                 let assembler = fname.ends_with(".inc")
                                     || fname.ends_with(".a")
